@@ -34,6 +34,11 @@ func (u *Unit) staticCallees(f *ssa.Function) (all, primary map[string]bool) {
 		seen[f] = true
 		for _, b := range f.Blocks {
 			for _, in := range b.Instrs {
+				for _, op := range in.Operands(nil) {
+					if g := moduleGlobal(*op); g != nil {
+						primary["global:"+g.String()] = true
+					}
+				}
 				var c *ssa.CallCommon
 				switch x := in.(type) {
 				case *ssa.Call:
@@ -219,4 +224,13 @@ func (u *Unit) uncontractedModuleFunc(primary string) bool {
 		}
 	}
 	return false
+}
+
+// moduleGlobal: v if it is a package-level variable of the module, else nil.
+func moduleGlobal(v ssa.Value) *ssa.Global {
+	g, ok := v.(*ssa.Global)
+	if !ok || g.Pkg == nil || !strings.HasPrefix(g.Pkg.Pkg.Path(), modulePath) {
+		return nil
+	}
+	return g
 }
